@@ -58,7 +58,9 @@ PROTOCOLS = ("v1", "auto")
 # "grown-list": ONE list object gets the argument groups appended one by one, an expression is made after every step
 #   (config.tags.append(...); config.setup_tag_expression() in before_all) -- the last expression is the one checked;
 # "class-iter": the legacy class behave.tag_expression.TagExpression used directly with a one-shot iterable of arguments
-HOWS = ("explicit", "current", "config", "grown-list", "class-iter")
+# "config-text": the expression reaches Configuration.setup_tag_expression(tags=...) as ONE text (public method, called
+#   by user code in before_all)
+HOWS = ("explicit", "current", "config", "grown-list", "class-iter", "config-text")
 FORMS = ("list", "list-blanks", "string", "string-blanks")
 
 
@@ -141,6 +143,8 @@ def valid_case(case):
                 return False
             if case["how"] == "class-iter" and case["protocol"] != "v1":
                 return False
+            if case["how"] == "config-text" and case["form"] not in ("string", "string-blanks"):
+                return False
             return (valid_v1(case["groups"]) and case["form"] in FORMS and case["protocol"] in PROTOCOLS
                     and case["how"] in HOWS)
         if kind == "v2":
@@ -192,6 +196,13 @@ def build(arg, protocol_name, how, as_tuple=False):
                 grown.append(term)
                 expr = make_tag_expression(grown, protocol)
             return expr
+        if how == "config-text":
+            from behave.configuration import Configuration
+            if isinstance(arg, (list, tuple)):
+                raise ValueError("config-text needs the one-string form")
+            config = Configuration([], load_config=False, tag_expression_protocol=protocol)
+            config.setup_tag_expression(tags=arg)
+            return config.tag_expression
         if how == "class-iter":
             from behave.tag_expression import TagExpression
             if not isinstance(arg, (list, tuple)) or protocol_name != "v1":
@@ -476,9 +487,11 @@ def v1_case_st(draw):
                           "lim": lim})
         groups.append(group)
     form = draw(st.sampled_from(FORMS))
-    how = draw(st.sampled_from(["explicit", "explicit", "current", "config", "grown-list", "class-iter"]))
+    how = draw(st.sampled_from(["explicit", "explicit", "current", "config", "grown-list", "class-iter", "config-text"]))
     if how in ("config", "grown-list", "class-iter") and form not in ("list", "list-blanks"):
         form = "list"
+    if how == "config-text" and form not in ("string", "string-blanks"):
+        form = "string"
     protocol = draw(st.sampled_from(PROTOCOLS)) if how != "class-iter" else "v1"
     return {"kind": "v1", "groups": groups, "form": form, "protocol": protocol, "how": how}
 
@@ -534,7 +547,7 @@ def explore(rec):
 
 
 def required_labels(tier):
-    return ["v1:list", "v1:list-blanks", "v1:string", "v1:string-blanks", "protocol:v1", "protocol:auto", "how:explicit", "how:current", "how:grown-list", "how:class-iter",
+    return ["v1:list", "v1:list-blanks", "v1:string", "v1:string-blanks", "protocol:v1", "protocol:auto", "how:explicit", "how:current", "how:grown-list", "how:class-iter", "how:config-text",
             "how:config", "v1:groups=3", "v1:alternatives=3", "v1:minus", "v1:tilde", "v1:at", "v1:negated-at",
             "v1:limit", "v1:bare-tag-with-limit", "v1:keyword-substring-tag", "v1:operator-word-inside-tag", "v1:operator-word-at-end-of-tag", "v1:non-ascii-tag", "excluded:both-dialects",
             "v2-auto", "v2-auto:single-operand", "v2-auto:keyword-substring-tag", "wildcard", "form:list",
